@@ -17,6 +17,7 @@ namespace sqf::runtime::verif
     // Observation points (H3). Fired after the state change they describe.
     enum class obs
     {
+        instr_begin,    // execute_do: frame::next() (incl. exit behaviours) ran, the fetched instruction is about to execute
         instr_done,     // execute_do: one instruction executed and its error handling finished
         frame_done,     // execute_do: a completed frame was popped and its value re-pushed
         slice_begin,    // execute(start): a context is about to get a slice (or be skipped)
